@@ -71,9 +71,9 @@ def random_program(rng):
 
 def units(tier, seed):
     us = []
-    for i in range(8 if tier == 'quick' else 100):
+    for i in range(16 if tier == 'quick' else 100):
         us.append(('history', i))
-    for i in range(4 if tier == 'quick' else 60):
+    for i in range(6 if tier == 'quick' else 60):
         us.append(('conc', i))
     return us
 
